@@ -155,24 +155,53 @@ def invalid_calls(rng, f, ch, mode, late, ty):
     return c
 
 
+def group_of(ins):
+    """class family of an inserted call (slots draw one call per family, so that every family meets every format at every place)"""
+    d = ins.desc
+    if d.startswith("seek behind"):
+        return "pos-behind"
+    if ins.kind == "seek":
+        return "pos-bad"
+    if ins.kind in ("r", "w", "wraw", "rraw"):
+        return "audio"
+    if "after audio" in d:
+        return "late"
+    for key, g in (("BROADCAST", "bext"), ("CART", "cart"), ("SET_CUE", "cue"), ("INSTRUMENT", "inst"), ("CHANNEL_MAP", "chmap"), ("sf_set_string", "str")):
+        if key in d:
+            return g
+    return "misc"
+
+
+SLOTS = [("pos-behind", "pos-bad", "audio", "bext", "cart", "cue", "inst", "chmap", "str", "misc"),      # before anything
+         ("bext", "cart", "cue", "inst", "chmap", "str", "pos-behind"),                                 # after the valid metadata
+         ("pos-behind", "pos-bad", "audio", "late", "late", "bext", "cue", "misc"),                     # between the writes (partial block pending)
+         ("pos-behind", "late", "late", "str", "inst", "cart", "misc")]                                 # before the close
+
+
 def gen_twin(rng, f, ch, mode):
     """-> (twin lines, {line index: Ins})"""
     ty = "s16" if f.codec not in (0x06, 0x07) else "f32"
     A, B = rng.choice([1, 5, 7, 25, 33]), rng.choice([1, 6, 25, 70])
     L, marks = ["open h0 s0 %s fmt=%08x ch=%d sr=8000" % (mode, f.word, ch)], {}
 
-    def slot(late, n):
+    def slot(late, k):
         cands = invalid_calls(rng, f, ch, mode, late, ty)
-        for ins in rng.sample(cands, min(n, len(cands))):
+        picks = []
+        for g in SLOTS[k]:
+            pool = [c for c in cands if group_of(c) == g and c not in picks]
+            if pool:
+                picks.append(rng.choice(pool))
+        rng.shuffle(picks)
+        for ins in picks:
             marks[len(L)] = ins
             L.append(ins.line)
             L.append("strerror h0")
 
-    slot(False, 3)
+    slot(False, 0)
     L.extend(valid_metadata(rng, f, ch))
-    slot(False, 3)
+    slot(False, 1)
     L.append(S.w_line("h0", ty, "f", A, S.rand_values(rng, ty, A * ch, "unit")))
-    slot(True, 4)
+    slot(True, 2)
     L.append(S.w_line("h0", ty, "f", B, S.rand_values(rng, ty, B * ch, "unit")))
     slot(True, 3)
     L += ["seek h0 0 1", "getmeta h0", "close h0", "dump s0"]
